@@ -1354,6 +1354,7 @@ func runC03(c *Ctx) {
 	checkShortReadIsNotEOF(c, "verify.short-read-not-eof")
 	checkCacheOnlyVerifiedLeaves(c, "verify.cache-only-verified")
 	checkNoTruncatingConsumer(c, "verify.no-truncating-consumer", "pkg/core", "pkg/fuse")
+	checkVerifySettingOnlyFromOptions(c, "defaults.verify-setting-only-from-options")
 }
 
 func fmtConds(conds []string) string {
